@@ -7,3 +7,8 @@
 ;@ghost scanT Int
 ; wrote[b] = the B-tree index object b wrote its container state to its pages during this shutdown
 ;@ghost wrote (Array Int Bool)
+; hash index header page: number of block pages and the page id of block k (uninterpreted; defined by the stubs of
+; HashTableHeaderPage.NumBlocks / GetBlockPageID), and which pages were overwritten directly in the data file
+(declare-fun hnb (Int) Int)
+(declare-fun hblk (Int Int) Int)
+;@ghost dwrote (Array Int Bool)
